@@ -395,6 +395,50 @@ func c05Run(e *core.Env) {
 			}
 		}
 	}
+	// high precision and exponent gaps beyond the 128-entry power-of-ten table: the operand that is rescaled is
+	// the aliased one, and the long result still fits (the arithmetic operations only; p = 300 and 150)
+	{
+		long200 := strings.Repeat("1234567890", 20)
+		pairs := [][2]DecJ{
+			{{Coef: "1", Exp: 150}, {Coef: "3"}}, {{Coef: "3"}, {Coef: "1", Exp: 150}},
+			{{Coef: "12345", Exp: 200}, {Coef: "7", Exp: 10}}, {{Coef: "7", Exp: 10}, {Coef: "12345", Exp: 200}},
+			{{Coef: long200}, {Coef: "7", Exp: 130}}, {{Coef: "7", Exp: 130}, {Coef: long200}},
+			{{Coef: long200, Exp: -140}, {Coef: "3", Neg: true}}, {{Coef: "9", Exp: 129}, {Coef: "9", Exp: 129}},
+			{{Coef: "1", Exp: -129, Neg: true}, {Coef: "5"}}, {{Coef: "5"}, {Coef: "1", Exp: -129}},
+			// equal digit-count + exponent sums with a heap-backed (>= 2^128) coefficient on one side: Cmp, Add, Sub must align
+			{{Coef: "1" + strings.Repeat("0", 43) + "1", Exp: -44}, {Coef: "1"}}, {{Coef: "1"}, {Coef: "1" + strings.Repeat("0", 43) + "1", Exp: -44}},
+			{{Coef: "1" + strings.Repeat("0", 38) + "1", Exp: -39, Neg: true}, {Coef: "1", Neg: true}}, {{Coef: "2"}, {Coef: "1" + strings.Repeat("9", 40), Exp: -40}},
+		}
+		hctx := []CtxCase{MkCtx(300, -6143, 6144, apd.RoundHalfEven, 0), MkCtx(150, -6143, 6144, apd.RoundDown, 0)}
+		n := int64(0)
+		for _, pr := range pairs {
+			for _, name := range []string{"Add", "Sub", "Mul", "Quo", "QuoInteger", "Rem", "Cmp"} {
+				n++
+				if !e.Mine(n) {
+					continue
+				}
+				o, ok := findDop(name)
+				if !ok {
+					panic("no operation " + name)
+				}
+				e.State()
+				for _, cc := range hctx {
+					pats := []string{"d==x", "d==y"}
+					if pr[0] == pr[1] {
+						pats = append(pats, "x==y", "d==x==y")
+					}
+					for _, pat := range pats {
+						yj := pr[1]
+						e.TransOnly(2)
+						e.Outcome(o.name+"/"+pat+"/gap>128", false)
+						if msg := c05One(o, pr[0], &yj, cc, pat); msg != "" {
+							fail(o, pr[0], &yj, cc, pat, msg)
+						}
+					}
+				}
+			}
+		}
+	}
 	// BigInt methods: receiver aliasing an argument, both arguments the same object (mirrored on math/big)
 	for i := range c16Alphabet {
 		if !e.Mine(int64(i)) {
@@ -472,7 +516,7 @@ func init() {
 		Title: "Any argument may alias the destination or another argument",
 		Rule:  "every destination-writing operation (22 Context operations, Decimal.Neg/Abs/Set/Reduce, four Modf output shapes) x operand tuples x contexts x alias patterns {d==x, d==y, x==y, d==x==y} is executed on fresh objects and compared (observable result, Condition, error text, integer results, deep snapshot of non-destination operands) with the same operation on distinct objects holding equal values; BigInt methods under receiver/argument aliasing are mirrored on math/big; every aliased run is a distinct non-trivial case",
 		Bounds: func(tier string) string {
-			return fmt.Sprintf("%d operand representations (DENSE + EDGE, inline and heap-backed, NaN/sNaN/clean+dirty infinities, signed zeros) x second operands x %d contexts (incl. precision 0 and trap sets) x %d operations; BigInt: %d alphabet values x 2 representations x (17 binary x 43 alias tuples + 5 unary)", len(c05Operands(tier)), len(c05Ctxs(tier)), len(allDops), len(c16Alphabet))
+			return fmt.Sprintf("%d operand representations (DENSE + EDGE, inline and heap-backed, NaN/sNaN/clean+dirty infinities, signed zeros) x second operands x %d contexts (incl. precision 0 and trap sets) x %d operations; 14 operand pairs with exponent gaps of 129-200 (1E+150 and 3, a 200-digit operand and 7E+130, ...) or tying digit-count + exponent sums with a 40-45 digit coefficient x 7 arithmetic operations at Precision 300 and 150; BigInt: %d alphabet values x 2 representations x (17 binary x 43 alias tuples + 5 unary)", len(c05Operands(tier)), len(c05Ctxs(tier)), len(allDops), len(c16Alphabet))
 		},
 		Run:    c05Run,
 		Replay: c05Replay,
